@@ -215,7 +215,12 @@ macro_rules! nary {
             5 => dyn_getter::<$t, _>($ty::<$t, 5, E>::new(arr(&$v))),
             6 => dyn_getter::<$t, _>($ty::<$t, 6, E>::new(arr(&$v))),
             7 => dyn_getter::<$t, _>($ty::<$t, 7, E>::new(arr(&$v))),
-            _ => dyn_getter::<$t, _>($ty::<$t, 8, E>::new(arr(&$v))),
+            8 => dyn_getter::<$t, _>($ty::<$t, 8, E>::new(arr(&$v))),
+            9 => dyn_getter::<$t, _>($ty::<$t, 9, E>::new(arr(&$v))),
+            10 => dyn_getter::<$t, _>($ty::<$t, 10, E>::new(arr(&$v))),
+            11 => dyn_getter::<$t, _>($ty::<$t, 11, E>::new(arr(&$v))),
+            12 => dyn_getter::<$t, _>($ty::<$t, 12, E>::new(arr(&$v))),
+            n => panic!("harness: n-ary node with {} inputs", n),
         }
     };
 }
@@ -1269,7 +1274,8 @@ pub fn gen_c02(prop: &str, tier: Tier, rng: &mut Rng, seed: u64, run: u64) -> Pl
     let all: Vec<&str> = KINDS_F.iter().chain(KINDS_B.iter()).chain(KINDS_Q.iter()).copied().collect();
     for j in 0..nn {
         let kind = if j == nn - 1 { all[(run % all.len() as u64) as usize] } else { *rng.pick(&all) };
-        let max_arity = if rng.chance(0.3) { 8 } else { 5 };
+        // (the statements put no ceiling on the arity: a tenth of the plans go beyond eight inputs)
+        let max_arity = if rng.chance(0.1) { 12 } else if rng.chance(0.3) { 8 } else { 5 };
         let n = random_node(rng, kind, specs.len(), &specs, leaf_bias, max_arity);
         specs.push(n);
     }
